@@ -43,3 +43,18 @@ package diskstore
 //@ func (DiskStore).Path
 //@   trusted
 //@   pure
+//@ func (ReadOnlyBucket).Get
+//@   trusted
+//@   pure
+//@ func (ReadOnlyBucket).ForEach
+//@   trusted
+//@   pure
+//@   iterates f
+//@ func (ReadOnlyBucket).PrefixScan
+//@   trusted
+//@   pure
+//@   iterates f
+//@ func (ReadOnlyBucket).RangeScan
+//@   trusted
+//@   pure
+//@   iterates f
